@@ -106,6 +106,9 @@ NOSTD_PRELUDE = "#![allow(unused, non_snake_case, non_camel_case_types, dead_cod
 
 def render_src(src, nostd=False):
     """-> Rust source of one module file holding the declaration."""
+    if nostd and "::std::" in src["ty"]:
+        # the declaration's own inner type must be nameable without std (Cow lives in alloc)
+        src = dict(src, ty=src["ty"].replace("::std::", "::alloc::"))
     items, consts, parts = [], [], []
     is_const = any(b["bk"] == "const_fn" for b in src["blocks"])
     for b in src["blocks"]:
